@@ -55,6 +55,9 @@ KINDS = {
                              call=lambda x, e: x.call('C_UnwrapKey', s=e['s'], mech=x.M('CKM_AES_KEY_WRAP'), ukey=e['o'], wrapped=e['blob'], tmpl=x.T({'CKA_CLASS': x.ck.CKO_SECRET_KEY, 'CKA_KEY_TYPE': x.ck.CKK_AES, 'CKA_TOKEN': True, 'CKA_PRIVATE': True, 'CKA_LABEL': b'NEW', 'CKA_SENSITIVE': False, 'CKA_EXTRACTABLE': True})), written=['NEW']),
  'C_DeriveKey':         dict(pre=lambda x, e: (pre_user(x, e), e.__setitem__('o', find1(x, e['s'], b'K1'))), call=lambda x, e: x.call('C_DeriveKey', s=e['s'], mech=x.M('CKM_AES_ECB_ENCRYPT_DATA', kdstr=(b'\x33' * 16).hex()), key=e['o'],
                              tmpl=x.T({'CKA_CLASS': x.ck.CKO_SECRET_KEY, 'CKA_KEY_TYPE': x.ck.CKK_AES, 'CKA_VALUE_LEN': 16, 'CKA_TOKEN': True, 'CKA_PRIVATE': True, 'CKA_LABEL': b'NEW', 'CKA_SENSITIVE': False, 'CKA_EXTRACTABLE': True})), written=['NEW']),
+ # calls that only READ: they must not touch the token directory at all -- if they do, every file-system operation of theirs is a crash point like any other (nothing may change: S0 = S1)
+ 'read-everything(user)': dict(pre=pre_user, call=lambda x, e: ([x.getattrs(e['s'], h, ATTRS, cap=80000) for h in x.findall(e['s'], {})[1]], [x.call('C_GetObjectSize', s=e['s'], o=h) for h in x.findall(e['s'], {})[1]], x.call('C_GetTokenInfo', slot=e['slot']))[-1], written=[]),
+ 'read-everything(public)': dict(pre=pre_pub, call=lambda x, e: ([x.getattrs(e['s'], h, ATTRS, cap=80000) for h in x.findall(e['s'], {})[1]], x.call('C_GetMechanismList', slot=e['slot'], count=200), x.call('C_GetTokenInfo', slot=e['slot']))[-1], written=[]),
 }
 QUICK_KINDS = ['C_Login(right-pin)', 'C_Login(wrong-pin)', 'C_SetPIN(user)', 'C_InitPIN', 'C_InitToken(re-init)', 'C_InitToken(fresh)', 'C_CreateObject(private-key)', 'C_SetAttributeValue', 'C_CopyObject', 'C_DestroyObject', 'C_GenerateKey']
 
@@ -73,6 +76,7 @@ def make_template(paths, ck, d, backend, big=False):
     val = (b'public-data-' * (6000 if big else 3))
     assert x.call('C_CreateObject', s=s, tmpl=x.T(dict(T['data'], CKA_TOKEN=True, CKA_PRIVATE=False, CKA_LABEL=b'D1', CKA_VALUE=val)))['rv'] == 0
     assert x.call('C_CreateObject', s=s, tmpl=x.T(dict(T['ec_priv'], CKA_TOKEN=True, CKA_PRIVATE=True, CKA_LABEL=b'E1')))['rv'] == 0
+    assert x.call('C_CreateObject', s=s, tmpl=x.T(dict(T['cert'], CKA_TOKEN=True, CKA_PRIVATE=False, CKA_LABEL=b'X1')))['rv'] == 0      # a public X.509 certificate (read by the read-only kinds)
     # an object whose file is larger than a stdio buffer: its flush is several write() calls, a crash inside it cuts the file in the middle of a value
     assert x.call('C_CreateObject', s=s, tmpl=x.T(dict(T['generic'], CKA_VALUE=bytes((i * 7 + 3) % 251 for i in range(6000)), CKA_TOKEN=True, CKA_PRIVATE=True, CKA_LABEL=b'G1', CKA_ID=b'id-big')))['rv'] == 0
     x.call('C_Finalize'); x.close()
@@ -262,14 +266,14 @@ def crash_job(job):
 def run(ctx):
     ctx.need('plain', 'asan'); ck = ctx.ck
     kinds = list(KINDS); backends = ('file', 'db'); jobs = []; idx = 0; plan = {}
-    QUICK_DB = ('C_SetAttributeValue', 'C_SetAttributeValue(multi)', 'C_DestroyObject', 'C_SetPIN(user)', 'C_Login(wrong-pin)', 'C_InitPIN', 'C_InitPIN(first)')
+    QUICK_DB = ('read-everything(user)', 'read-everything(public)', 'C_SetAttributeValue', 'C_SetAttributeValue(multi)', 'C_DestroyObject', 'C_SetPIN(user)', 'C_Login(wrong-pin)', 'C_InitPIN', 'C_InitPIN(first)')
     for backend in backends:
         for big in ((False,) if ctx.quick else (False, True)):
             tdir = ctx.dir(f'template-{backend}-{int(big)}'); make_template(ctx.paths, ck, tdir, backend, big)
             d00 = ctx.dir('s0'); shutil.rmtree(d00); shutil.copytree(tdir, d00); mkconf(d00, backend); S0 = probe(ctx.paths, ck, d00)      # on a copy: the probe's own wrong-PIN logins leave PIN-count flags behind
             for f in os.listdir(tdir):
                 if f.startswith(('stderr', 'trace')): os.unlink(os.path.join(tdir, f))
-            if 'tokA' not in S0['tokens'] or len(S0['tokens']['tokA']['objects']) != 5: raise AssertionError('template probe unexpected: %r' % S0)
+            if 'tokA' not in S0['tokens'] or len(S0['tokens']['tokA']['objects']) != 6: raise AssertionError('template probe unexpected: %r' % S0)
             for kind in kinds:
                 if big and kind not in ('C_SetAttributeValue', 'C_SetAttributeValue(multi)', 'C_CopyObject', 'C_DestroyObject', 'C_Login(right-pin)'): continue
                 if ctx.quick and backend == 'db' and kind not in QUICK_DB: continue
